@@ -240,10 +240,22 @@ def run(ck, facts):
             ck.expect(total and not reads_self, "R2", key, "always stores the incoming value",
                       "setter for `%s` is not last-write-wins: %s" % (lit, "a condition reads the current state" if reads_self else "some incoming values leave the previous value in place"), C.loc(f, ln))
             # the stored value derives from `value`
+            # locals that carry (part of) the incoming value: `value` itself, bindings of patterns matched against it, lets initialised from it
+            derived = {y.get("id") for y in C.walk(body) if y.get("k") == "local" and y.get("n") == "value"}
+            for _ in range(3):
+                for y in C.walk(body):
+                    src_, pats_ = None, []
+                    if y.get("k") == "match":
+                        src_, pats_ = y["s"], [a_["pat"] for a_ in y["arms"]]
+                    elif y.get("k") in ("let", "letst") and y.get("init") is not None:
+                        src_, pats_ = y["init"], [y.get("pat")]
+                    if src_ is not None and any(z.get("k") == "local" and z.get("id") in derived for z in C.walk(src_)):
+                        for p_ in pats_:
+                            derived |= set(C.pat_bind_ids(p_) or [])
             for x in C.walk(body):
                 if x.get("k") == "assign" and self_field_assign(x) == lit:
                     r = x["r"]
-                    from_value = any(y.get("k") == "local" and y.get("n") == "value" for y in C.walk(r))
+                    from_value = any(y.get("k") == "local" and (y.get("n") == "value" or y.get("id") in derived) for y in C.walk(r))
                     is_const_variant = C.strip(r).get("k") == "def" and C.strip(r).get("dk", "").startswith("Ctor")
                     if not (from_value or is_const_variant):
                         ck.bad("R2", key + "/source", "stored value does not derive from the incoming `value`", C.loc(f, ln))
